@@ -19,7 +19,10 @@ package main
 //            ERROR records on stderr, the primary requests the `ok` servers saw, connections to excluded
 //            targets, exit status.  Verdict: records = the `ok` targets (once each, with the probed scheme /
 //            address / port), error records = one per failed probe, nothing for excluded targets.
-//            The exit delay is the default (or larger): that is what C08's last clause is stated for.
+//            The exit delay is the default (or larger): that is what C08's last clause is stated for.  Ground truth
+//            `ok` means "the server answers": a run in which an error record says that the probe of an ok server
+//            timed out (the machine stalled for longer than -t) is measured again, at most twice.  Fewer than
+//            ~20 failed probes per run, except in the `mass` cases (250-500 ports of one address, most closed).
 //   apptime  (C09, C10): one run against ONE target that never answers (SYN dropped, or accept-and-stall),
 //            `-t T` given or left at the CLI default (read from `sx <cmd> --help`); observed = wall time of the
 //            process; verdict = wall <= k*T + exit delay + slack (socks k = 4: connect + 3 data timeouts;
@@ -303,6 +306,39 @@ func appErrorRecords(stderr string) int {
 	return n
 }
 
+// appOkTimedOut: some error record is a timeout and names an `ok` target that is not excluded
+func appOkTimedOut(targets []appTarget, stderr string) bool {
+	var oks []string
+	for _, t := range targets {
+		if t.beh == "ok" && !t.excl {
+			oks = append(oks, t.key())
+		}
+	}
+	for _, line := range strings.Split(stderr, "\n") {
+		if !strings.Contains(line, `"level":"error"`) {
+			continue
+		}
+		if !(strings.Contains(line, "deadline exceeded") || strings.Contains(line, "i/o timeout") || strings.Contains(line, "Timeout exceeded")) {
+			continue
+		}
+		for _, k := range oks {
+			// the address is followed by a character that cannot continue a port number
+			for i := strings.Index(line, k); i >= 0; {
+				rest := line[i+len(k):]
+				if rest == "" || rest[0] < '0' || rest[0] > '9' {
+					return true
+				}
+				j := strings.Index(rest, k)
+				if j < 0 {
+					break
+				}
+				i += len(k) + j
+			}
+		}
+	}
+	return false
+}
+
 // appSpec: how the targets are handed to the command
 type appSpec struct {
 	mode    string // net | addrs | pairs
@@ -394,7 +430,7 @@ func e2eAppComponent(r *hx.Run) {
 	if !enterNetlab() {
 		return
 	}
-	r.Rule = "case = one complete run of the real sx binary (socks | elastic | docker, http and https) in a private network namespace against scripted servers. apprec: a farm of targets with known behaviours (ok / neg / refused / tarpit / garbage / SYN dropped), target modes subnet x ports | address file x ports | pairs file, optional --exclude, default or larger exit delay; observed = (multiset of (scan, proto, host) of the JSON records on stdout, number of error records on stderr, primary requests seen by the ok servers, connections to excluded targets, exit status); verdict = records are the ok targets once each, one error record per failed probe. apptime: one target that never answers, -t given or left at the default shown by --help; observed = wall time; verdict = wall <= k*T + exit delay + slack (a duration over the bound is re-measured, at most twice). limwire: --rate N/W, all three commands, all three target modes, 1 and several workers; observed = sorted times of the first connection to each target; verdict = every window obeys (k-2-10)*floor(W/N) - slack; non-trivial class = (tag, command, proto, mode, workers>1, timeout given)"
+	r.Rule = "case = one complete run of the real sx binary (socks | elastic | docker, http and https) in a private network namespace against scripted servers. apprec: a farm of targets with known behaviours (ok / neg / refused / tarpit / garbage / SYN dropped), target modes subnet x ports | address file x ports | pairs file, optional --exclude, default or larger exit delay; observed = (multiset of (scan, proto, host) of the JSON records on stdout, number of error records on stderr, primary requests seen by the ok servers, connections to excluded targets, exit status); verdict = records are the ok targets once each, one error record per failed probe (a run in which the probe of an ok server ran into its timeout - a stalled machine - is measured again, at most twice). apptime: one target that never answers, -t given or left at the default shown by --help; observed = wall time; verdict = wall <= k*T + exit delay + slack (a duration over the bound is re-measured, at most twice). limwire: --rate N/W, all three commands, all three target modes, 1 and several workers; observed = sorted times of the first connection to each target; verdict = every window obeys (k-2-10)*floor(W/N) - slack; non-trivial class = (tag, command, proto, mode, workers>1, timeout given)"
 	lab := newNetlab()
 	defer lab.close()
 	// nobody answers on the far end of the veth pair: with a permanent neighbour entry the SYNs for these
@@ -519,7 +555,7 @@ func e2eAppComponent(r *hx.Run) {
 	}
 	runRec := func(cb combo, sp appSpec, extra string) {
 		mode := sp.mode
-		tMs := 400 + 100*rng.Intn(2)
+		tMs := 500 + 100*rng.Intn(3)
 		workers := []int{5, 16, 100}[rng.Intn(3)]
 		args := []string{cb.cmd, "--json", "-t", fmt.Sprintf("%dms", tMs), "-w", fmt.Sprint(workers)}
 		if rng.Intn(3) == 0 {
@@ -538,11 +574,24 @@ func e2eAppComponent(r *hx.Run) {
 		}
 		args = append(args, appArgs(rng, nextDir(), sp)...)
 		variant := rng.Intn(8)
-		farm := newAppFarm(cb.cmd, cb.proto, tlsCfg, variant, sp.targets)
-		res := runSX(nil, 60*time.Second, args...)
-		time.Sleep(10 * time.Millisecond)
-		farm.close()
-		lab.take()
+		var farm *appFarm
+		var res sxRun
+		for try := 0; try < 3; try++ {
+			farm = newAppFarm(cb.cmd, cb.proto, tlsCfg, variant, sp.targets)
+			res = runSX(nil, 60*time.Second, args...)
+			time.Sleep(10 * time.Millisecond)
+			farm.close()
+			lab.take()
+			// ground truth `ok` = "the server answers": if the machine stalled so long that a probe of an ok server ran
+			// into its timeout (the error record names the target), the run says nothing about sx: measured again
+			if !appOkTimedOut(sp.targets, res.stderr) {
+				break
+			}
+			r.Count("apprec-remeasured")
+		}
+		if d := os.Getenv("VERIF_E2EAPP_DEBUG"); d != "" {
+			os.WriteFile(filepath.Join(d, fmt.Sprintf("apprec-%d.stderr", r.Evaluations+1)), []byte(strings.Join(args, " ")+"\n"+res.stderr), 0o644)
+		}
 		obs := ""
 		switch {
 		case res.timedOut:
